@@ -78,6 +78,173 @@ def run_sched(args, cwd, mode, prefix=(), variant="plain", fault=None, env=None,
     return x
 
 
+def _parse_trace(x, tracef):
+    x.points, x.flag, x.workers, x.faults = [], None, {}, []
+    try:
+        with open(tracef) as f:
+            for line in f:
+                w = line.split()
+                if not w:
+                    continue
+                if w[0] == "P":
+                    x.points.append(Point(w[1], int(w[2]), int(w[3]), int(w[4]), w[5] if len(w) > 5 else ""))
+                elif w[0] == "W":
+                    x.workers[int(w[1])] = (int(w[2]), int(w[3]))
+                elif w[0] == "F":
+                    x.faults.append((int(w[1]), int(w[2]), w[3]))
+                elif w[0] in ("DIVERGE", "DEADLOCK", "HORIZON", "TOO-MANY-MUTEXES", "TOO-MANY-THREADS"):
+                    x.flag = x.flag or line.strip()
+        os.unlink(tracef)
+    except FileNotFoundError:
+        x.flag = "NO-TRACE"
+
+
+class Server:
+    """Fork server inside the real binary (see native/vsched.c): command line parsed and libraries loaded once,
+    then one fork per schedule at the moment the real executor starts."""
+
+    def __init__(self, args, cwd, mode, variant="plain", env=None, binary=None, ready_timeout=120):
+        import select
+        self.args, self.cwd, self.mode, self.variant, self.env, self.binary = list(args), cwd, mode, variant, env, binary
+        self.base = os.path.join(vrun.scratch_base(), "srv.%d.%d" % (os.getpid(), next(_tctr)))
+        r1, w1 = os.pipe()
+        r2, w2 = os.pipe()
+        e = dict(os.environ)
+        e.pop("CPPCHECK_HOME", None)
+        e.update({"LC_ALL": "C", "LD_PRELOAD": shim(), "VSCHED_MODE": mode, "VSCHED_SERVER": "%d,%d" % (r1, w2)})
+        if env:
+            e.update(env)
+        self.hout, self.herr = self.base + ".hout", self.base + ".herr"
+        with open(self.hout, "wb") as ho, open(self.herr, "wb") as he:
+            self.proc = subprocess.Popen([binary or build.cppcheck(variant)] + self.args, cwd=cwd, env=e, stdout=ho,
+                                         stderr=he, pass_fds=(r1, w2), start_new_session=True)
+        os.close(r1)
+        os.close(w2)
+        self.w, self.r = w1, r2
+        self.buf = b""
+        self.alive = True
+        self.unserved = None
+        line = self._readline(ready_timeout)
+        if line != b"READY":
+            # the run never reached a parallel executor: it simply ran to completion
+            try:
+                self.proc.wait(timeout=ready_timeout)
+            except subprocess.TimeoutExpired:
+                self._kill()
+            self.alive = False
+            self.unserved = vrun.Res(self.proc.returncode, open(self.hout, "rb").read(), open(self.herr, "rb").read())
+        self.head_out = open(self.hout, "rb").read()
+        self.head_err = open(self.herr, "rb").read()
+
+    def _readline(self, timeout):
+        import select
+        end = time.time() + timeout
+        while b"\n" not in self.buf:
+            left = end - time.time()
+            if left <= 0:
+                return None
+            rl, _, _ = select.select([self.r], [], [], left)
+            if not rl:
+                return None
+            d = os.read(self.r, 4096)
+            if not d:
+                return b"EOF"
+            self.buf += d
+        line, self.buf = self.buf.split(b"\n", 1)
+        return line
+
+    def _kill(self):
+        import signal
+        try:
+            os.killpg(self.proc.pid, signal.SIGKILL)
+        except ProcessLookupError:
+            pass
+        try:
+            self.proc.wait(timeout=10)
+        except Exception:
+            pass
+        self.alive = False
+
+    def run(self, prefix=(), fault=None, timeout=120):
+        x = Exec()
+        x.prefix = list(prefix)
+        if self.unserved is not None:
+            x.res = self.unserved
+            x.points, x.flag, x.workers, x.faults = [], None, {}, []
+            return x
+        n = next(_tctr)
+        fo, fe, ft = "%s.%d.out" % (self.base, n), "%s.%d.err" % (self.base, n), "%s.%d.tr" % (self.base, n)
+        cmd = "RUN\t%s\t%s\t%s\t%s\t%s\n" % (fo, fe, ft, fault or "", ",".join("%d/%d" % (a, k) for a, k in prefix))
+        os.write(self.w, cmd.encode())
+        line = self._readline(timeout)
+        timed_out = False
+        rc = -998
+        if line is None:
+            timed_out = True
+            self._kill()
+        elif line.startswith(b"DONE"):
+            rc = os.waitstatus_to_exitcode(int(line.split()[1]))
+        else:
+            self.alive = False
+
+        def rd(f):
+            try:
+                with open(f, "rb") as fh:
+                    d = fh.read()
+                os.unlink(f)
+                return d
+            except FileNotFoundError:
+                return b""
+        x.res = vrun.Res(rc, self.head_out + rd(fo), self.head_err + rd(fe), timed_out=timed_out)
+        _parse_trace(x, ft)
+        if timed_out:
+            x.flag = x.flag or "TIMEOUT"
+        elif not self.alive:
+            x.flag = x.flag or "SERVER-DIED"
+        return x
+
+    def close(self):
+        if self.alive:
+            try:
+                os.write(self.w, b"QUIT\n")
+                self.proc.wait(timeout=10)
+            except Exception:
+                self._kill()
+        for fd in (self.w, self.r):
+            try:
+                os.close(fd)
+            except OSError:
+                pass
+        for f in (self.hout, self.herr):
+            try:
+                os.unlink(f)
+            except OSError:
+                pass
+
+
+class ServerPool:
+    """One Server per explorer thread for a fixed command line (servers are sequential, the pool is parallel)."""
+
+    def __init__(self, factory):
+        self.factory = factory
+        self.tls = threading.local()
+        self.all = []
+        self.lock = threading.Lock()
+
+    def run(self, prefix=(), fault=None, timeout=120):
+        s = getattr(self.tls, "s", None)
+        if s is None or not (s.alive or s.unserved is not None):
+            s = self.factory()
+            self.tls.s = s
+            with self.lock:
+                self.all.append(s)
+        return s.run(prefix, fault, timeout)
+
+    def close(self):
+        for s in self.all:
+            s.close()
+
+
 class Stats:
     def __init__(self):
         self.execs = 0
